@@ -399,6 +399,13 @@ def rule_loop(ctx: Ctx) -> None:
                 continue
             if l is None or r is None:
                 continue
+            # `n - 1 >= pivot[i]` is `pivot[i] <= n - 1`: put the pivot coordinate on the left
+            if not any(l.get(f"{PV}[{i}]", 0) == 1 for i in (0, 1)) and any(r.get(f"{PV}[{i}]", 0) == 1 for i in (0, 1)):
+                mir = {ast.Lt: ast.Gt, ast.Gt: ast.Lt, ast.LtE: ast.GtE, ast.GtE: ast.LtE}.get(type(c.ops[0]))
+                if mir is None:
+                    continue
+                l, r = r, l
+                c = ast.Compare(left=c.comparators[0], ops=[mir()], comparators=[c.left])
             for i in (0, 1):
                 base = f"{PV}[{i}]"
                 if l.get(base, 0) == 1:
